@@ -4,9 +4,11 @@ package props
 
 import (
 	"fmt"
+	"github.com/alicebob/sqlittle"
 	sdb "github.com/alicebob/sqlittle/db"
 	"math/rand"
 	"os"
+	"path/filepath"
 	"sync"
 
 	"verifharness/hx"
@@ -245,6 +247,7 @@ func C17(run *hx.Run) {
 		seenData[&j.data[0]] = true
 		c17Nested(run, j.data, j.name, j.roots)
 	}
+	c17RealLock(run)
 	for _, k := range []string{"Table.Scan", "Index.Scan", "Index.ScanMin", "Index.ScanRange", "Index.ScanEq", "SelectDone"} {
 		if run.Seen("op_kind", k) == 0 {
 			run.Inconclusive("no " + k + " operation was exercised")
@@ -329,4 +332,73 @@ func c17Nested(run *hx.Run, data []byte, dbname string, roots map[string]int) {
 			}
 		}
 	}
+}
+
+// c17RealLock: "returns ... with the read lock released", on a real file: after a scan was stopped at row k -
+// plainly, and with a (refused) attempt to read again on the same handle from inside the callback just before
+// the stop - this process holds no lock of any kind on the file (/proc/locks: shared range, pending byte,
+// reserved byte) and a SQLite writer in another process commits at once.
+func c17RealLock(run *hx.Run) {
+	o := mustOracle(run)
+	if o == nil {
+		return
+	}
+	defer o.Close()
+	dir, cleanup := hx.ScratchDir("C17lock")
+	defer cleanup()
+	path := filepath.Join(dir, "stop.sqlite")
+	if err := makeVersionedDB(o, path, 1024, 300); err != nil {
+		run.Inconclusive("stop-lock db: " + err.Error())
+		return
+	}
+	if err := o.Exec(path, "CREATE TABLE w(k INTEGER, v TEXT, PRIMARY KEY(k)) WITHOUT ROWID", "INSERT INTO w SELECT id, pad FROM t"); err != nil {
+		run.Inconclusive("stop-lock db: " + err.Error())
+		return
+	}
+	db, err := sqlittle.Open(path)
+	if err != nil {
+		run.Violation("C17/real-file/open", err.Error(), nil)
+		return
+	}
+	defer db.Close()
+	type scan struct {
+		name string
+		run  func(cb func(sqlittle.Row) bool) error
+	}
+	scans := []scan{
+		{"SelectDone/t", func(cb func(sqlittle.Row) bool) error { return db.SelectDone("t", cb, "id") }},
+		{"SelectDone/w (WITHOUT ROWID)", func(cb func(sqlittle.Row) bool) error { return db.SelectDone("w", cb, "k") }},
+	}
+	version := 5000
+	for _, sc := range scans {
+		for _, k := range []int{1, 2, 57, 299, 300} {
+			for _, nested := range []bool{false, true} {
+				n := 0
+				err := sc.run(func(sqlittle.Row) bool {
+					n++
+					if nested && n == k {
+						// refused ("trying to lock a locked lock"); whatever it tried must be undone
+						safely(func() { db.Select("meta", func(sqlittle.Row) {}, "version") })
+						safely(func() { db.Columns("t") })
+					}
+					return n >= k
+				})
+				run.Eval(1)
+				run.DistinctN(1)
+				key := "C17/real-file/" + map[bool]string{false: "stop", true: "stop-after-nested-attempt"}[nested]
+				detail := hx.M{"scan": sc.name, "k": k, "nested_attempt": nested}
+				if err != nil || n != k {
+					run.Violation(key+"/result", fmt.Sprintf("%s stopped at %d: %d callbacks, err=%v", sc.name, k, n, err), detail)
+				}
+				if locks := ourLocks(path); len(locks) > 0 {
+					run.Violation(key+"/lock-left-behind", fmt.Sprintf("%s stopped at row %d (nested read attempt in the callback: %v) returned, but this process still holds %+v on the file", sc.name, k, nested, locks), detail)
+				}
+				version++
+				if err := o.Exec(path, fmt.Sprintf("UPDATE meta SET version=%d", version)); err != nil {
+					run.Violation(key+"/writer-blocked", fmt.Sprintf("after %s stopped at row %d (nested attempt: %v) a SQLite writer gets: %v", sc.name, k, nested, err), detail)
+				}
+			}
+		}
+	}
+	run.See("real_file_lock_after_stop", "no lock of this process in /proc/locks, writer commits")
 }
